@@ -11,6 +11,7 @@ import (
 	"grog/internal/console"
 	"grog/internal/label"
 	"grog/internal/model"
+	"grog/internal/output/handlers"
 )
 
 /*
@@ -151,10 +152,22 @@ func pathTriesToEscape(relPath string) bool {
 	return strings.HasPrefix(cleanedPath, relativePrefix) || cleanedPath == ".."
 }
 
+// pathOutputs returns the identifiers of all outputs that are paths on disk:
+// files and directories (docker outputs are image tags, not paths).
+func pathOutputs(target *model.Target) []string {
+	var paths []string
+	for _, output := range target.AllOutputs() {
+		if output.IsFile() || output.Type == string(handlers.DirHandler) {
+			paths = append(paths, output.Identifier)
+		}
+	}
+	return paths
+}
+
 func checkOutputsAreWithinRepository(target *model.Target) (errs []error) {
 	workspaceRoot := config.Global.WorkspaceRoot
 
-	for _, output := range target.FileOutputs() {
+	for _, output := range pathOutputs(target) {
 		if path.IsAbs(output) {
 			errs = append(errs, fmt.Errorf(
 				"output %s for target %s is not relative",
